@@ -230,3 +230,37 @@ PROPS["C12"] = {
         ],
     },
 }
+
+U = {"kind": "unmanaged", "invariants": ["Inv_C05_places", "Inv_C12_late", "Inv_C05_status"], "actprops": [],
+     "preds": ["U10a", "U10b", "U10c", "U12a", "U12b"]}
+PROPS["C10"] = {
+    "invariants": ["Inv_C02a", "Inv_C02b", "Inv_C02c", "Inv_C09b", "Inv_C04a"], "actprops": [],
+    "preds": ["C04c", "C10b", "C10c", "C10d"],
+    "configs": {
+        "quick": [
+            {"name": "build", "cases": "build", "spec": "ManagedBuild.tla", "invariants": ["Total"]},
+            ("rt", C(InitMax=1, Budget=3, GetModes=["nb", "bl", "timed"], CreateTO="finite", RecycleTO="finite", AllowFail=False, AllowCancel=False), True),
+            ("zero", C(InitMax=1, Budget=3, GetModes=["nb", "timed"], CreateTO="zero", RecycleTO="zero", AllowCancel=False), True),
+            ("nort_wait", C(InitMax=1, Budget=3, GetModes=["nb", "bl", "timed"], HasRuntime=False, AllowCancel=False), True),
+            ("nort_create", C(InitMax=1, Budget=3, GetModes=["nb", "bl"], CreateTO="finite", HasRuntime=False, AllowCancel=False, AllowSuspend=False), True),
+            ("nort_recycle", C(InitMax=1, Budget=3, GetModes=["nb", "bl"], RecycleTO="finite", HasRuntime=False, AllowCancel=False, AllowSuspend=False), True),
+            ("poollevel", C(Tasks=["t1"], InitMax=1, Budget=4, GetModes=["timed"], CreateTO="finite", RecycleTO="finite", AllowCancel=False, ThreadLevel=False), True,
+             {"hcfg": {"pool_level": True, "pool_wait": "timed"}}),
+            ("u_rt", C(MaxSize=1, NObjs=2, Budget=3, GetModes=["try", "bl", "timed"], HasRuntime=True, AllowTake=False, AllowRemove=False), True, U),
+            ("u_nort", C(MaxSize=1, Preload=1, NObjs=1, Budget=3, GetModes=["try", "bl", "timed"], HasRuntime=False, AllowAdd=False), True, U),
+        ],
+        "thorough": [
+            {"name": "build", "cases": "build", "spec": "ManagedBuild.tla", "invariants": ["Total"]},
+            ("rt", C(InitMax=1, Budget=4, GetModes=["nb", "bl", "timed"], CreateTO="finite", RecycleTO="finite"), True),
+            ("rt2", C(InitMax=2, Budget=4, GetModes=["bl", "timed"], CreateTO="finite", RecycleTO="finite", AllowFail=False, NPost=1, AsyncPost=[1]), True),
+            ("zero", C(InitMax=1, Budget=4, GetModes=["nb", "timed"], CreateTO="zero", RecycleTO="zero"), True),
+            ("nort_wait", C(InitMax=1, Budget=4, GetModes=["nb", "bl", "timed"], HasRuntime=False), True),
+            ("nort_create", C(InitMax=1, Budget=4, GetModes=["nb", "bl"], CreateTO="finite", HasRuntime=False, AllowSuspend=False), True),
+            ("nort_recycle", C(InitMax=1, Budget=4, GetModes=["nb", "bl"], RecycleTO="finite", HasRuntime=False, AllowSuspend=False), True),
+            ("poollevel", C(Tasks=["t1"], InitMax=2, Budget=5, GetModes=["timed"], CreateTO="finite", RecycleTO="finite", ThreadLevel=False), True,
+             {"hcfg": {"pool_level": True, "pool_wait": "timed"}}),
+            ("u_rt", C(MaxSize=2, NObjs=2, Budget=4, GetModes=["try", "bl", "timed"], HasRuntime=True), True, U),
+            ("u_nort", C(MaxSize=1, Preload=1, NObjs=2, Budget=4, GetModes=["try", "bl", "timed"], HasRuntime=False), True, U),
+        ],
+    },
+}
